@@ -38,7 +38,7 @@ ES_PLACES = ["headers", "lastdata", "emptydata", "trailers"]
 CLS = [None, b"0", b"4", b"5"]
 ALPHABET = ("methods GET/HEAD/HEAD+trailers/POST; statuses 200/204/304/100->200/100->204; content-length absent/0/4/5 (and on the 1xx only); "
             "chunkings %s; END_STREAM on %s" % ([c[0] for c in CHUNKINGS], ES_PLACES))
-BOUNDS = {"quick": "full product (both directions)", "thorough": "full product, additionally with a second concurrent stream in flight and every 2-frame batching of the history"}
+BOUNDS = {"quick": "full product (both directions) x {plain, header_encoding=utf-8, a PUSH_PROMISE for the other kind of method before the response}", "thorough": "full product, additionally with a second concurrent stream in flight and every 2-frame batching of the history"}
 
 
 def build_cases(tier):
@@ -86,11 +86,15 @@ def expected(case):
 _BASES = {}
 
 
-def base(direction):
-    if direction not in _BASES:
-        h = H.Solo(client=(direction == "B"))
-        _BASES[direction] = pickle.dumps(h.conn)
-    return pickle.loads(_BASES[direction])
+VARIANTS = [None, "utf8", "push"]      # plain | header_encoding='utf-8' | a PUSH_PROMISE (other method) before the response
+
+
+def base(direction, variant=None):
+    k = (direction, variant == "utf8")
+    if k not in _BASES:
+        h = H.Solo(client=(direction == "B"), **({"header_encoding": "utf-8"} if variant == "utf8" else {}))
+        _BASES[k] = pickle.dumps(h.conn)
+    return pickle.loads(_BASES[k])
 
 
 def frames_for(case):
@@ -121,9 +125,9 @@ def frames_for(case):
     return fr
 
 
-def run_case(case, batching=None):
+def run_case(case, batching=None, variant=None):
     direction, method, status, cl, cl1xx, cn, esp = case
-    conn = base(direction)
+    conn = base(direction, variant)
     if direction == "B":
         m = b"HEAD" if method.startswith(b"HEAD") else method
         req = [(b":method", m), (b":scheme", b"https"), (b":path", b"/"), (b":authority", b"example.com")]
@@ -133,6 +137,13 @@ def run_case(case, batching=None):
         if with_trailers:
             o = H.call(conn, "send_headers", 1, H.ni([(b"x-req-trailer", b"1")]), end_stream=True)
             assert o.kind == "ok", o.brief()
+    if variant == "push" and direction == "B":
+        # a promise on the request's stream, for a request with the OTHER kind of method: the promised request is not
+        # the request this response answers
+        other = b"GET" if method.startswith(b"HEAD") else b"HEAD"
+        preq = [(b":method", other), (b":scheme", b"https"), (b":path", b"/pushed"), (b":authority", b"example.com")]
+        o = H.recv(conn, wire.push_promise(1, 2, H.stateless_block(preq)).serialize())
+        assert o.kind == "ok", o.brief()
     frs = frames_for(case)
     groups = [[f] for f in frs]
     if batching is not None and len(frs) > batching + 1:
@@ -180,9 +191,11 @@ def shard(job):
     samples = []
     n = 0
     for case in cases:
-        for batching in job["batchings"]:
+        for batching, variant in itertools.product(job["batchings"], job.get("variants", [None])):
+            if variant == "push" and case[0] != "B":
+                continue
             exp = expected(case)
-            got, o = run_case(case, batching)
+            got, o = run_case(case, batching, variant)
             n += 1
             outcomes[exp + "/" + got] = outcomes.get(exp + "/" + got, 0) + 1
             direction, method, status, cl, cl1xx, cn, esp = case
@@ -190,9 +203,11 @@ def shard(job):
                 nontrivial += 1
             if got != exp:
                 sig = case_sig(case, exp, got)
+                if variant:
+                    sig["variant"] = variant
                 k = repr(sorted(sig.items()))
                 if k not in viols:
-                    viols[k] = {"kind": "content-length", "sig": sig, "case": list(case) + [batching],
+                    viols[k] = {"kind": "content-length", "sig": sig, "case": list(case) + [batching, variant],
                                 "msg": "history %r (batching %r): expected %s, library %s%s" % (
                                     case, batching, exp, got, (" (" + o.brief() + ")") if o is not None else "")}
         if len(samples) < 2:
@@ -205,10 +220,14 @@ def replay(rec):
     case = rec["case"]
     c = tuple(_unj(x) for x in case[:7])
     batching = case[7]
+    variant = case[8] if len(case) > 8 else None
     exp = expected(c)
-    got, o = run_case(c, batching)
+    got, o = run_case(c, batching, variant)
     if got != exp:
-        return [{"kind": "content-length", "sig": case_sig(c, exp, got),
+        sig = case_sig(c, exp, got)
+        if variant:
+            sig["variant"] = variant
+        return [{"kind": "content-length", "sig": sig,
                  "msg": "history %r: expected %s, library %s" % (c, exp, got)}]
     return []
 
@@ -227,7 +246,7 @@ def run(ctx):
     cases = build_cases(ctx.tier)
     batchings = [None] if ctx.tier == "quick" else [None, 0, 1, 2, 3]
     n = 32
-    jobs = [{"cases": cases[i::n], "batchings": batchings} for i in range(n)]
+    jobs = [{"cases": cases[i::n], "batchings": batchings, "variants": VARIANTS} for i in range(n)]
     ctx.fanout("c16-product-%s" % ctx.tier, jobs, "shard",
                domain="%d message histories x %d batchings" % (len(cases), len(batchings)))
     ctx.fanouts[-1]["states"] = 2
